@@ -42,7 +42,7 @@ def main():
             continue
         r = subprocess.run(["/venv/bin/python", os.path.join(VERIF, "tools", "trymut.py"), "--patch", os.path.join(sd, "patch.diff"), "--tier", a.tier,
                             "--seeds", "0", prop], cwd=VERIF, capture_output=True, text=True, timeout=3600)
-        line = [ln for ln in r.stdout.splitlines() if ln.startswith(prop)]
+        line = [ln for ln in r.stdout.splitlines() if ln.startswith(prop + " seed=") and ":" in ln]
         res = line[-1].split(":", 1)[1].strip() if line else ("ERROR " + (r.stdout + r.stderr)[-200:])
         meta["detection_current"] = {"check": prop, "tier": a.tier, "result": res[:400], "repo": head("/repo"), "verif": head(VERIF)}
         with open(mp, "w") as f:
